@@ -157,8 +157,11 @@ def run_step(name, c, other, cs, z_new, z_old, k, t, num, out, klass0, idx):
     # node sequences are handed over in any accepted form (list / tuple / one-shot iterable), fixed by the step data
     form = ("list", "gen", "tuple", "iter", "list", "map")[(k + idx) % 6]
 
+    order = lib.SEQ_ORDERS[(k * 3 + idx) % len(lib.SEQ_ORDERS)]
+
     def sq(values):
-        return lib.seq_form(values, form)
+        # ... and in any order: nothing says a request lists its nodes increasingly
+        return lib.seq_form(lib.reorder(values, order), form)
     if name == "knot_insert":
         c.knot_insert(sq([z_new] if k % 2 else [z_new, z_new][: 1 + (c.degree > 0)]))
     elif name == "knot_insert_bad":
